@@ -312,6 +312,7 @@ pub fn main(args: &Args) {
     let repo = PathBuf::from(std::env::var("VERIF_REPO").unwrap_or_else(|_| "/repo".into()));
     let scratch = Arc::new(Mutex::new(Scratch::new("c18")));
     let root = scratch.lock().unwrap().root.clone();
+    let _ = e2::INTERPOSER_LOG.set(root.join("interposer.log"));
     let wl = workload::build(&bins, &repo, &verif_home(), thorough, &root);
     let only = args.get("only").map(str::to_string);
     let cmds: Vec<Cmd> = wl.cmds.into_iter().filter(|c| only.as_ref().map(|o| c.id.contains(o.as_str())).unwrap_or(true)).collect();
@@ -606,6 +607,7 @@ pub fn main(args: &Args) {
             "commands_exiting_nonzero_consistently": tally.exit_nonzero_cmds,
             "environments_per_command": envs + 1,
             "environment_dimensions_exercised_runs": tally.env_dims,
+            "interposer_calls_answered": e2::interposer_totals(),
             "concurrent_same_command_pairs": tally.concurrent_pairs,
             "same_process_repetitions_via_hooks_on_library": tally.inproc_pairs,
             "fixpoint_side_invariant": {"results_resimplified_unchanged": tally.idempotence_checked, "skipped_result_not_reparsable": tally.idempotence_skipped_unparsable, "wall_budget_s_per_run": TIMEOUT_S, "note": "first sentence of C18 is only asserted on the workload's own formulas; it is not searched"},
